@@ -95,7 +95,8 @@ CHECKS = {
         text=("Generated FilePreamble values (versions, private version present/absent, 1..8 parameter sets, optional member subsets, "
               "absent/empty/partial/full collection parameters, lists incl. unassigned codes, full-width integers) are written by the "
               "real exporter and read back; TLC compares both the independent denotation of the bytes and the library reader's result "
-              "with the supplied value, member for member."),
+              "with the supplied value, member for member. An exporter that gains a parameter set between two outputs is also run with "
+              "one I/O fault at every system call: each later output's preamble must hold the sets known when it was opened."),
         design_ref="DESIGN.md section 3 / C09",
         note=TRUST + "preambles are sampled (seeded).",
         technique="TLC trace validation: supplied preamble vs TLA+ denotation of the real bytes and vs reader dump",
@@ -118,7 +119,8 @@ CHECKS = {
               "storable/unstorable records, two AEC keys, malformed messages, write_block, rotation, parameter switches, for all "
               "block-size pairs in {0..3}: record conservation in order, block sizes, flush-exactly. TLC then emits every complete "
               "history of the model and the driver replays them on the real exporter; return values (zero/non-zero), all counters and "
-              "the parsed outputs are validated by TLC. Random longer histories add hint- and size-variation."),
+              "the parsed outputs are validated by TLC. Random longer histories add hint- and size-variation; outputs of more than 2^16 "
+              "blocks and counters after a failed write are covered by the many-blocks and fault-sweep families."),
         design_ref="DESIGN.md section 3 / C12",
         note=TRUST + "exhaustive only up to the stated history length and alphabet.",
         technique="TLA+ spec (Exporter.tla) model-checked with TLC; TLC-generated behaviours replayed on the real exporter and "
@@ -171,7 +173,8 @@ CHECKS = {
               "BlockValue.tla treats whole blocks as values - items, read cursors, the address-event iterator and the block "
               "parameters a block is filled under (fullness, hints, tick rate) - for the six manners of obtaining a block; all "
               "histories <= 5-6 ops model-checked (five named deviations must fail) and replayed on real CdnsBlockRead / CdnsBlock "
-              "objects: every read, every item count, what add_*() reports and the serialisation read back are validated by TLC."),
+              "objects: every read, every item count, what add_*() reports and the serialisation read back are validated by TLC; the "
+              "earliest time of a copy is compared with that of a freshly built block given the same items."),
         design_ref="DESIGN.md section 3 / C19",
         note=TRUST + "ASan/UBSan; the CDNS_VERIF probe reading key addresses.",
         technique="TLA+ spec (BlockTable.tla) model-checked with TLC; TLC-generated histories replayed under ASan and validated with "
@@ -201,7 +204,7 @@ CHECKS = {
               "its k-th write/writev/rename for every k; TLC validates the system-call log (data only to .part, rename only "
               ".part -> final, nothing after the rename) and every post-crash directory (names re-used, stale .part files, "
               "compressed outputs closed while the compressor holds back tens of KiB, a final rotation that cannot succeed, a rename the "
-              "environment refuses)."),
+              "environment refuses, a final name that is a symbolic link, outputs whose last bytes align with the scaled staging buffer)."),
         design_ref="DESIGN.md section 3 / C15",
         note=TRUST + "interposition of write/writev/rename in the driver executable; crash = _exit before the call (no power-loss semantics).",
         technique="TLA+ spec (Writer.tla) model-checked with TLC over all crash points + crash-point enumeration on the real code "
@@ -228,7 +231,7 @@ CHECKS = {
               "empty-block-only, same file twice); the pinned pass-2 behaviour is a seeded self-test. Real cdns-merge runs on tuples "
               "of real exporter files (differing parameter sets, tick rates, hints, versions; truncated anywhere; missing, garbage, "
               "empty files; a file listed twice; ~40 files holding the same records under parameter sets exactly one member "
-              "apart): TLC parses all inputs and the output independently and compares block by block "
+              "apart; inputs written by TLC whose blocks hold statistics only): TLC parses all inputs and the output independently and compares block by block "
               "(records, statistics, parameter equality), and checks the stdout of cdns-itemcount for all four option combinations "
               "against the counts of the independent parse."),
         design_ref="DESIGN.md section 3 / C18",
@@ -261,7 +264,8 @@ CHECKS = {
               "major types, nesting, out-of-range indices, malformed names/addresses in every string), hand-made extremes (nesting "
               "up to 10^6, indefinite chunks announcing 2^47 bytes), random bytes, flipped and truncated valid files are fed to "
               "every decoder operation, the reader and accessors, every string() renderer (ASan+UBSan, allocation cap, 8 MiB stack) "
-              "and to the five tools as child processes; TLC checks each recorded outcome is value/exception/end in bounded time."),
+              "and to the five tools as child processes; TLC checks each recorded outcome is value/exception/end in bounded time; "
+              "blocks kept by move across reads are rendered twice with the freed memory scribbled in between."),
         design_ref="DESIGN.md section 3 / C03 and section 4",
         note="AddressSanitizer and UBSan are the instruments; the input space is sampled; TLC + CommunityModules; python orchestration "
              "of child processes and rlimits.",
